@@ -221,10 +221,11 @@ pub fn generate(thorough: bool) -> (String, usize) {
         writeln!(s, "{d_nf}    NotFound,").unwrap();
         writeln!(s, "    Detailed {{\n{d_code}        code: {},\n        r#type: {},\n    }},", f1.rust, f2.rust).unwrap();
         writeln!(s, "{d_wr}    Wrapped(An{}{an_g}),", an.0).unwrap();
-        writeln!(s, "    Other {{ only: {} }},\n    Plain,\n}}", f3.rust).unwrap();
+        // `Other` reuses the field name `code` of `Detailed` with another type and another comment
+        writeln!(s, "    Other {{\n        /// code of the other kind\n        code: {},\n    }},\n    Plain,\n}}", f3.rust).unwrap();
         writeln!(
             s,
-            "pub fn case_error_{e}(sink: &mut Sink<'_>) {{\n    let wrapped = match lift_type(<An{} as Type>::TYPE) {{ RType::Struct(f) => f, other => {{ sink.fail(\"introspect:harness\", format!(\"{{other:?}}\"), json!({{}})); return; }} }};\n    let expect = vec![\n        RMember {{ comments: vec![{}], name: \"NotFound\".into(), kind: RKind::Error(vec![]) }},\n        RMember {{ comments: vec![], name: \"Detailed\".into(), kind: RKind::Error(vec![RField {{ comments: vec![{}], name: \"code\".into(), ty: {} }}, RField {{ comments: vec![], name: \"type\".into(), ty: {} }}]) }},\n        RMember {{ comments: vec![{}], name: \"Wrapped\".into(), kind: RKind::Error(wrapped) }},\n        RMember {{ comments: vec![], name: \"Other\".into(), kind: RKind::Error(vec![RField {{ comments: vec![], name: \"only\".into(), ty: {} }}]) }},\n        RMember {{ comments: vec![], name: \"Plain\".into(), kind: RKind::Error(vec![]) }},\n    ];\n    check_errors(sink, \"Er{e}\", <Er{e} as ReplyError>::VARIANTS, &expect);\n}}",
+            "pub fn case_error_{e}(sink: &mut Sink<'_>) {{\n    let wrapped = match lift_type(<An{} as Type>::TYPE) {{ RType::Struct(f) => f, other => {{ sink.fail(\"introspect:harness\", format!(\"{{other:?}}\"), json!({{}})); return; }} }};\n    let expect = vec![\n        RMember {{ comments: vec![{}], name: \"NotFound\".into(), kind: RKind::Error(vec![]) }},\n        RMember {{ comments: vec![], name: \"Detailed\".into(), kind: RKind::Error(vec![RField {{ comments: vec![{}], name: \"code\".into(), ty: {} }}, RField {{ comments: vec![], name: \"type\".into(), ty: {} }}]) }},\n        RMember {{ comments: vec![{}], name: \"Wrapped\".into(), kind: RKind::Error(wrapped) }},\n        RMember {{ comments: vec![], name: \"Other\".into(), kind: RKind::Error(vec![RField {{ comments: vec![\"code of the other kind\".into()], name: \"code\".into(), ty: {} }}]) }},\n        RMember {{ comments: vec![], name: \"Plain\".into(), kind: RKind::Error(vec![]) }},\n    ];\n    check_errors(sink, \"Er{e}\", <Er{e} as ReplyError>::VARIANTS, &expect);\n}}",
             an.0,
             x_nf.join(", "),
             x_code.join(", "),
